@@ -26,16 +26,17 @@ def proj(name):
         _PROJ["none"] = None
         _PROJ["pc180"] = ccrs.PlateCarree(central_longitude=180)
         _PROJ["rob"] = ccrs.Robinson()
+        _PROJ["rob180"] = ccrs.Robinson(central_longitude=180)
         _PROJ["pc0"] = ccrs.PlateCarree()
     return _PROJ[name]
 
 
 def cl_of(pname):
-    return 180 if pname == "pc180" else 0
+    return 180 if pname in ("pc180", "rob180") else 0
 
 
 def seam_k(pname):
-    return 2 if pname == "pc180" else 0
+    return 2 if cl_of(pname) == 180 else 0
 
 
 # ----------------------------------------------------------------------------- grids
@@ -93,7 +94,8 @@ class Targets:
         self.tab["ll180"] = p[:, :2].copy()
         p = proj("rob").transform_points(src, lon, lat)
         self.tab["rob"] = p[:, :2].copy()
-        # Robinson after the code's own seam shift is the same map: central longitude 0
+        p = proj("rob180").transform_points(src, lon, lat)
+        self.tab["rob180"] = p[:, :2].copy()
         self.sgn = {0: self._sgn(entry, 0, self.tab["ll0"][:, 0]), 2: self._sgn(entry, 2, self.tab["ll180"][:, 0])}
 
     @staticmethod
@@ -109,9 +111,9 @@ class Targets:
 
     def system(self, pname, projected):
         """name of the coordinate table for projection `pname`, explicitly projected or only seam-shifted"""
-        if pname == "rob":
-            return "rob" if projected else "ll0"
-        return "ll180" if pname == "pc180" else "ll0"
+        if projected and pname in ("rob", "rob180"):
+            return pname
+        return "ll180" if cl_of(pname) == 180 else "ll0"
 
     def match(self, xy, system):
         """coordinates (P, 2) -> list of [n, s]"""
@@ -242,30 +244,59 @@ def shoelace(p):
     return 0.5 * abs(float(np.dot(x, np.roll(y, -1)) - np.dot(y, np.roll(x, -1))))
 
 
-def expected_planar_area(face, tab, crosses, polein):
-    """Area of the face in the (shifted lon, lat) plane, the seam and the poles being where the
-    export puts them; which formula applies is decided by the specification (crosses, polein)."""
-    lon = np.array([tab[n][0] for n in face], dtype=float)
-    lat = np.array([tab[n][1] for n in face], dtype=float)
-    if not crosses:
-        return shoelace(np.stack([lon, lat], axis=1))
-    if not polein:
-        lo = np.where(lon < 0, lon + 360.0, lon)
-        lo = np.where(np.abs(lon) == 180.0, 180.0, lo)
-        return shoelace(np.stack([lo, lat], axis=1))
-    # the face encloses a pole: region between its boundary and the pole line
-    north = lat.mean() > 0
-    tot = 0.0
+def cut_latitude(u, v, k):
+    """Latitude (degrees) at which the great-circle arc u -> v (integer directions, seam position k)
+    meets the seam meridian: the direction (n_z, 0, -n_x) or its opposite, n = u x v."""
+    if k == 2:
+        u, v = (-u[0], -u[1], u[2]), (-v[0], -v[1], v[2])
+    n = (u[1] * v[2] - u[2] * v[1], u[2] * v[0] - u[0] * v[2], u[0] * v[1] - u[1] * v[0])
+    px, pz = n[2], -n[0]
+    if px > 0:
+        px, pz = -px, -pz
+    if px == 0:
+        return None
+    return math.degrees(math.atan2(pz, -px))
+
+
+def expected_planar_area(face, nodes, tab, k, polein, great_circle):
+    """Area of the face in the (seam-shifted lon, lat) plane once it is cut at the seam (and closed
+    over the pole line if it encloses a pole), the cut points lying on the straight lon/lat segment
+    (great_circle=False) or on the great-circle arc (True).  None if the construction is degenerate."""
+    lon = [tab[n][0] for n in face]
+    lat = [tab[n][1] for n in face]
     n = len(face)
+    L = [lon[0]]
+    pts = [(lon[0], lat[0])]
     for i in range(n):
         j = (i + 1) % n
-        d = lon[j] - lon[i]
-        d = (d + 180.0) % 360.0 - 180.0
+        d = (lon[j] - lon[i] + 180.0) % 360.0 - 180.0
         if abs(abs(d) - 180.0) < 1e-9:
             return None
-        hi = (90.0 - lat[i]) if north else (90.0 + lat[i])
-        hj = (90.0 - lat[j]) if north else (90.0 + lat[j])
-        tot += d * (hi + hj) / 2.0
+        a, b = L[-1], L[-1] + d
+        # a seam position S = 180 (mod 360) strictly between a and b
+        lo, hi = min(a, b), max(a, b)
+        S = math.ceil((lo - 180.0) / 360.0) * 360.0 + 180.0
+        if lo + 1e-9 < S < hi - 1e-9:
+            if great_circle:
+                lc = cut_latitude(nodes[face[i]], nodes[face[j]], k)
+                if lc is None:
+                    return None
+            else:
+                lc = lat[i] + (lat[j] - lat[i]) * (S - a) / (b - a)
+            pts.append((S, lc))
+        L.append(b)
+        pts.append((b, lat[j]))
+    wind = L[-1] - L[0]
+    if polein != (abs(wind) > 1.0):
+        return None
+    if not polein:
+        return shoelace(np.array(pts[:-1]))
+    north = sum(lat) > 0
+    tot = 0.0
+    for (x0, y0), (x1, y1) in zip(pts[:-1], pts[1:]):
+        h0 = (90.0 - y0) if north else (90.0 + y0)
+        h1 = (90.0 - y1) if north else (90.0 + y1)
+        tot += (x1 - x0) * (h0 + h1) / 2.0
     return abs(tot)
 
 
@@ -302,3 +333,87 @@ def tagged_prints(out, tags):
             continue
         res.append(v)
     return res
+
+
+# ----------------------------------------------------------------------------- histories
+HIST = {"entries": None, "ref": None}
+
+
+def ref_key(ev):
+    return (ev["act"], ev["pe"], ev["proj"], ev["eng"], bool(ev["project"]), ev["var"])
+
+
+def _mk_das(g):
+    return {"ta": tracer(g, "ta", 1000), "tb": tracer(g, "tb", 2000)}
+
+
+def obj_digest(obj, kind, owner=None):
+    gd, cols = digest(obj, kind)
+    if owner is not None:
+        gd = hashlib.sha1((gd + repr(owner)).encode()).hexdigest()[:16]
+    return gd, cols
+
+
+def fresh_reference(entry, ev):
+    """What a freshly built grid returns for the arguments of ev: (raised, geometry digest, columns)."""
+    g = make_grid(entry, 1)
+    try:
+        obj, owner = call(g, _mk_das(g), dict(ev, cache=True, override=False))
+    except Exception as e:  # noqa
+        return (True, "", {}, type(e).__name__)
+    gd, cols = obj_digest(obj, kind_of(ev["act"]), owner)
+    return (False, gd, cols, "")
+
+
+def edit_object(obj, kind):
+    """The caller changes an object it was given (drops its first geometry)."""
+    if kind == "gdf":
+        obj.drop(obj.index[0], inplace=True)
+    elif kind == "poly":
+        obj.set_verts([p.vertices for p in obj.get_paths()[1:]], closed=False)
+    else:
+        obj.set_segments(obj.get_segments()[1:])
+
+
+def replay_trace(job):
+    """Replays one history step by step on a fresh real grid.  After every step every object the
+    caller holds is re-projected (digests).  Returns the raw trace; no comparison is made here."""
+    entry = HIST["entries"][job["mesh"]]
+    g = make_grid(entry, 1)
+    das = _mk_das(g)
+    objs, kinds, owners, index = [], [], [], {}
+    steps = []
+    for ev in job["events"]:
+        st = {"x": False, "r": 0, "err": ""}
+        if ev["act"] == "Edit":
+            j = ev["target"]
+            if 1 <= j <= len(objs):
+                try:
+                    edit_object(objs[j - 1], kinds[j - 1])
+                except Exception as e:  # noqa
+                    st["err"] = "edit: %s: %s" % (type(e).__name__, str(e)[:120])
+        else:
+            try:
+                obj, owner = call(g, das, ev)
+                oid = id(obj)
+                if oid in index and objs[index[oid] - 1] is obj:
+                    st["r"] = index[oid]
+                    owners[index[oid] - 1] = owner
+                else:
+                    objs.append(obj)
+                    kinds.append(kind_of(ev["act"]))
+                    owners.append(owner)
+                    index[oid] = len(objs)
+                    st["r"] = len(objs)
+            except Exception as e:  # noqa
+                st["x"] = True
+                st["err"] = "%s: %s" % (type(e).__name__, str(e)[:160])
+        o = []
+        for ob, kd, ow in zip(objs, kinds, owners):
+            try:
+                o.append(obj_digest(ob, kd, ow))
+            except Exception as e:  # noqa
+                o.append(("unreadable:" + type(e).__name__, {}))
+        st["o"] = o
+        steps.append(st)
+    return {"id": job["id"], "steps": steps}
